@@ -536,7 +536,8 @@ func (b *assignmentBuilder) sliceToSlice(lhs, rhs bmodel.Node) (a gmodel.Assignm
 	}
 
 	if types.AssignableTo(rhsElem, lhsElem) {
-		if util.IsBasicType(rhsElem) {
+		// copy() requires identical element types; e.g. []string to []interface{} needs the loop.
+		if util.IsBasicType(rhsElem) && types.Identical(lhsElem, rhsElem) {
 			a = gmodel.SliceAssignment{
 				LHS: lhs.AssignExpr(),
 				RHS: rhs.AssignExpr(),
